@@ -572,6 +572,74 @@ def gen_handover_spec(rng: random.Random) -> dict:
     spec: dict[str, Any] = {"steps": steps, "externals": ext}
     if rng.random() < 0.1:
         spec["timeout"] = rng.choice([10, 30])
+def gen_handler_send_spec(rng: random.Random) -> dict:
+    """a recovered lineage that continues through `ctx.send_event` instead of a return value (family "handler_send").
+
+    A worker step fails (exhausted at once or after its retries); its @catch_error handler (scoped or wildcard, budget
+    1..3) re-dispatches the work item -- itself with ctx.send_event (returning None / something else), or through a relay
+    step downstream of it that sends the item back (the relay sometimes fails once first, so that the sending invocation
+    is a retry) -- and the item fails again.  Variants: several items (one lineage each), a handler that fans the item out
+    (two branches, a budget each), a worker that sends a side event to a second failing step before it fails (two
+    branches of one lineage through the same or another handler), explicit / implicit target steps.  All of it ends
+    after at most max_recoveries entries per path; `max_calls` only bounds a run on a tree where it does not."""
+    e1, e2 = rng.randint(1, 9), rng.randint(1, 9)
+    layout = rng.choice(["handler_sends", "handler_sends", "relay_sends", "relay_sends", "side_branch", "handler_fans_out"])
+    max_rec = rng.randint(1, 3)
+    pol = rng.choice([None, None, {"kind": "attempts", "n": rng.randint(1, 3), "wait": rng.choice([0, 0, 2])},
+                      {"kind": "legacy", "n": rng.randint(1, 2), "wait": 0}])
+    items = rng.randint(1, 2) if layout in ("side_branch", "handler_fans_out") else rng.randint(1, 3)
+    if layout == "side_branch":
+        # every attempt of the worker sends a side event: keep the tree of branches small
+        max_rec = min(max_rec, 2)
+        if pol is not None:
+            pol["n"] = min(pol["n"], 2)
+    ks = [rng.choice([None, 1, 2, 2]) for _ in range(items)]
+    fail = rng.choice([["fail_always", e1], ["fail_always", e1], ["fail_on_k", 2, e1], ["fail_until", 4, e1]])
+    if fail[0] == "fail_on_k" and 2 not in ks:
+        ks[0] = 2
+    start = {"name": "s00", "accepts": [0], "nw": 1, "retry": None,
+             "script": [["send", 5, rng.choice([None, "s02"]), k] for k in ks] + [["ret", "none"]]}
+    wscript: list = [["gate"]] if rng.random() < 0.3 else []
+    if layout == "side_branch":
+        wscript.append(["send", 6, rng.choice([None, "s04"]), rng.choice([None, 1])])
+    wscript += [fail, ["ret", rng.choice(["stop", "none", "8"])]]
+    worker = {"name": "s02", "accepts": [5], "nw": rng.randint(1, 3), "retry": pol, "script": wscript}
+    steps = [start, worker]
+    owned = ["s02"]
+    if layout == "side_branch":
+        steps.append({"name": "s04", "accepts": [6], "nw": rng.randint(1, 2), "retry": None,
+                      "script": [rng.choice([["fail_always", e2], ["fail_always", e2], ["yield"]]), ["ret", "none"]]})
+        if rng.random() < 0.6:
+            owned.append("s04")
+    keep_k = rng.random() < 0.8  # the re-dispatched item keeps its k (it fails again under fail_on_k)
+    resend = ["send", 5, rng.choice([None, "s02"]), "same" if keep_k else rng.choice([None, 1, 2])]
+    hscript: list = [["gate"]] if rng.random() < 0.25 else []
+    if layout in ("handler_sends", "side_branch"):
+        hscript += [resend, ["ret", rng.choice(["none", "none", "8"])]]
+    elif layout == "handler_fans_out":
+        hscript += [resend, list(resend), ["ret", "none"]]
+    else:
+        hscript += [["ret", "7"]]
+        rpol = None
+        rscript: list = [["gate"]] if rng.random() < 0.25 else []
+        if rng.random() < 0.35:
+            rpol = {"kind": "attempts", "n": 2, "wait": 0}
+            rscript.append(["fail_until", 1, e2])  # the send happens on the relay's retry
+        rscript += [resend, ["ret", "none"]]
+        steps.append({"name": "s06", "accepts": [7], "nw": rng.randint(1, 2), "retry": rpol, "script": rscript})
+    scoped = rng.random() < 0.6
+    steps.append({"name": "s12", "accepts": [4], "role": "handler", "for_steps": sorted(owned) if scoped else None,
+                  "max_rec": max_rec, "script": hscript})
+    if scoped and rng.random() < 0.5:
+        # a wildcard next to the scoped handler: it owns what the scoped one does not list (never the handler steps)
+        steps.append({"name": "s13", "accepts": [4], "role": "handler", "for_steps": None, "max_rec": rng.randint(1, 2),
+                      "script": [rng.choice([resend, ["send", 5, None, None]]), ["ret", "none"]]})
+    if any(a[0] == "ret" and a[1] == "8" for s in steps for a in s["script"]):
+        steps.append({"name": "s08", "accepts": [8], "nw": 1, "retry": None, "script": [["ret", "none"]]})
+    rng.shuffle(steps)
+    spec: dict[str, Any] = {"steps": steps, "externals": [], "max_calls": 400}
+    if rng.random() < 0.15:
+        spec["externals"].append({"op": "snapshot", "after_quiet": rng.randint(0, 3)})
     return spec
 
 
@@ -655,6 +723,8 @@ def gen_spec(rng: random.Random, **kw: Any) -> dict:  # type: ignore[no-redef]
         return gen_handover_spec(rng)
     if kw.get("family") == "wait_multi":
         return gen_wait_multi_spec(rng)
+    if kw.get("family") == "handler_send":
+        return gen_handler_send_spec(rng)
     if kw.get("family") == "general" or r < 0.55:
         kw.pop("family", None)
         kw.pop("raise_incomplete", None)
